@@ -111,6 +111,7 @@ int main(int argc, char** argv)
         p.endpoints = 4;
         p.allowGarbage = true;
         p.bigSegmentHistories = 16;
+        p.manyEndpoints = 12;
         // one history in eight: long gaps full of other endpoints' first segments between the segments of one message
         return rc::gen::exec([p]() { return *range<int>(0, 7) == 0 ? *genLongGapHistory() : *genFrameHistory(p); });
     };
